@@ -36,6 +36,8 @@ def run_world(world, idx=0, timeout=180, hashseed='0', extra_env=None, keep=Fals
         spec['stdout_encoding'] = world['stdout_encoding']
     if world.get('via'):
         spec['via'] = world['via']
+    if world.get('falsy_streams'):
+        spec['falsy_streams'] = True
     if 'warnings' in world:
         spec['warnings'] = world['warnings']
     if 'child_cwd' in world:
